@@ -3,6 +3,7 @@ import QipVerif.Lemmas.NoiseKron
 import QipVerif.Lemmas.NoiseReg
 import QipVerif.Lemmas.NoiseKraus3
 import QipVerif.Lemmas.NoiseDeriv
+import QipVerif.Lemmas.NoiseStrict
 /-!
 # C15 — T1/T2 decoherence has exactly the specified rates and keeps states physical
 
@@ -202,6 +203,81 @@ property requires acceptance at the boundary, the shipped code raises `ZeroDivis
 theorem C15_counterexample_orig :
     relaxationOps false [2] (.scalar ⟨1, 1⟩) (.scalar ⟨2, 1⟩) none = .error .zerodiv ∧
     relaxationOps true [2] (.scalar ⟨1, 1⟩) (.scalar ⟨2, 1⟩) none = .ok [⟨[0], .destroy, 2, some ⟨1, 1⟩⟩] := by
+  decide
+
+/-! ### Entries of per-subsystem lists (`strict = true`: `_T_to_list` with `fixes/C15-3.patch`) -/
+
+/-- the repaired `_T_to_list` rejects exactly: non-positive scalars, lists of the wrong length, and
+lists of the right length with a non-positive entry (`None` entries are allowed) -/
+theorem validation_T_strict (T : TSpec) (N : Nat) :
+    tToListS true T N = .error .invalidT ↔
+      (∃ q, T = .scalar q ∧ q.n ≤ 0) ∨
+      (∃ l, T = .list l ∧ (l.length ≠ N ∨ ∃ a, some a ∈ l ∧ a.n ≤ 0)) := by
+  cases T with
+  | none => simp [tToListS, tToList]
+  | scalar q =>
+    by_cases h : 0 < q.n
+    · simp [tToListS, tToList, Frac.isPos, h]
+    · simp [tToListS, tToList, Frac.isPos, h]; omega
+  | list l =>
+    by_cases hl : l.length = N
+    · by_cases hp : entriesPos l = true
+      · have hok := (entriesPos_iff l).mp hp
+        have hlhs : tToListS true (.list l) N = .ok l := by simp [tToListS, hl, hp]
+        rw [hlhs]
+        constructor
+        · intro h; cases h
+        · rintro (⟨q, h, _⟩ | ⟨l', h, hne | ⟨a, ha, hn⟩⟩)
+          · cases h
+          · injection h with h; subst h; exact absurd hl hne
+          · injection h with h; subst h; have := hok _ ha a rfl; omega
+      · have hne : ¬ EntriesOk l := fun h => hp ((entriesPos_iff l).mpr h)
+        simp only [EntriesOk, not_forall] at hne
+        obtain ⟨x, hx, a, ha, hna⟩ := hne
+        have hlhs : tToListS true (.list l) N = .error .invalidT := by simp [tToListS, hl, hp]
+        rw [hlhs]
+        exact ⟨fun _ => Or.inr ⟨l, rfl, Or.inr ⟨a, ha ▸ hx, by omega⟩⟩, fun _ => rfl⟩
+    · have hlhs : tToListS true (.list l) N = .error .invalidT := by simp [tToListS, hl]
+      rw [hlhs]
+      exact ⟨fun _ => Or.inr ⟨l, rfl, Or.inl hl⟩, fun _ => rfl⟩
+
+/-- wherever the repaired set-up accepts, the shipped one accepts with the same operators (all rate
+and solution theorems carry over), and without the entry check the two coincide -/
+theorem strict_agrees (strict fixed : Bool) (dims : List Nat) (t1 t2 : TSpec) (tg : Option (List Nat)) :
+    (∀ ops, relaxationOpsS strict fixed dims t1 t2 tg = .ok ops → relaxationOps fixed dims t1 t2 tg = .ok ops) ∧
+    relaxationOpsS false fixed dims t1 t2 tg = relaxationOps fixed dims t1 t2 tg := by
+  refine ⟨fun ops h => ?_, by simp [relaxationOpsS, relaxationOps, tToListS_false]⟩
+  simp only [relaxationOpsS] at h
+  cases h1 : tToListS strict t1 dims.length with
+  | error e => simp [h1] at h
+  | ok l1 =>
+    cases h2 : tToListS strict t2 dims.length with
+    | error e => simp [h1, h2] at h
+    | ok l2 =>
+      simp only [h1, h2] at h
+      simp [relaxationOps, tToListS_ok strict t1 _ l1 h1, tToListS_ok strict t2 _ l2 h2, h]
+
+/-- **the repaired set-up never hands a non-finite prefactor to the solver**: every Lindblad operator
+of an accepted configuration has a finite squared prefactor (`rate ≠ none`) -/
+theorem strict_no_nan (fixed : Bool) (dims : List Nat) (t1 t2 : TSpec) (tg : Option (List Nat))
+    (ops : List COp) (h : relaxationOpsS true fixed dims t1 t2 tg = .ok ops) : ∀ c ∈ ops, c.rate ≠ none := by
+  simp only [relaxationOpsS] at h
+  cases h1 : tToListS true t1 dims.length with
+  | error e => simp [h1] at h
+  | ok l1 =>
+    cases h2 : tToListS true t2 dims.length with
+    | error e => simp [h1, h2] at h
+    | ok l2 =>
+      simp only [h1, h2] at h
+      exact loopTargets_rates fixed dims l1 l2 (tToListS_entries t1 _ l1 h1) (tToListS_entries t2 _ l2 h2) _ ops h
+
+/-- **Counter-example for the code as shipped** (`t1 = [1, -1]`, two qubits): the list entry is not
+checked, the set-up succeeds and qubit 1 gets a collapse operator with a non-finite prefactor
+(`rate = none`, `nan` in the code); with the entry check the set-up raises the `_T_to_list` error. -/
+theorem C15_counterexample_list_entry :
+    relaxationOps true [2, 2] (.list [some ⟨1, 1⟩, some ⟨-1, 1⟩]) .none none =
+      .ok [⟨[0], .destroy, 2, some ⟨1, 1⟩⟩, ⟨[1], .destroy, 2, none⟩] ∧
+    relaxationOpsS true true [2, 2] (.list [some ⟨1, 1⟩, some ⟨-1, 1⟩]) .none none = .error .invalidT := by
   decide
 
 /-! ### Which operators on which subsystems -/
